@@ -477,6 +477,6 @@ fn table_oracle(c: &TableCase, info: &mut Case) -> Result<(), String> {
 }
 
 pub fn run(ctx: &Ctx) {
-    ctx.explore("shard", ctx.tier.pick(1_500, 30_000), 16, shard_case, shard_oracle);
-    ctx.explore("table", ctx.tier.pick(20_000, 600_000), 16, table_case, table_oracle);
+    ctx.explore("shard", ctx.tier.pick(6_000, 60_000), 16, shard_case, shard_oracle);
+    ctx.explore("table", ctx.tier.pick(80_000, 1_200_000), 16, table_case, table_oracle);
 }
